@@ -32,7 +32,7 @@ CLAIMED = {
              "transitive, antisymmetric; mergeSort lemmas) and from two facts re-derived from the source on every run: the table's keys are distinct "
              "(kernel-evaluated over 365 rows) and lib.rs sorts the vector (translator). Theorems also pin the complete list of hash-ordered iterations "
              "and of statics in the library, so a new hidden input breaks the build. A pure function needs no further theorem in Lean: the remaining "
-             "claim (two calls / two processes agree) is checked by running 8 (thorough: 24) fresh processes on the whole segment space and generated runs.",
+             "claim (two calls / two processes agree) is checked by running 8 (thorough: 24) fresh processes on the whole segment space and generated runs; \"in which order the words are supplied\": per-word independence is C11.run_pointwise over the runner model, and every run of a separate stream (2 500 quick / 20 000 thorough rule sets, 2-5 words) is repeated on the reversed word list and must give the reversed results (a binding table or cache that survives from one word to the next shows here with the two word lists as the failing input).",
         note="Trusted: Lean kernel, standard axioms; translator's reading of the CARDINALS_VEC initialiser and its grep for hash iteration/statics "
              "(regex, declared); std's HashMap has no influence other than iteration order. The pinned tree violated the property (D1); repaired by a "
              "fix: commit (known_findings.json, status fixed); seeded/C01-unsorted-cardinals reverts it and is detected.",
@@ -172,7 +172,7 @@ CLAIMED = {
         technique="Lean 4 theorems (filters, termination/cycle rejection, cache invariant) on a hand model + plan correspondence + end-to-end runs of the real binary on generated project trees",
         design="§4 C20"),
     "C14": dict(
-        text="Proved over the port of syll.rs, for any run length, position and syllable: a matrix naming no length/stress/tone leaves the syllable's stress, tone and segment count unchanged and reports no length change, and touches no segment outside the run; apply_syll_mods (stress/tone setting) never touches a segment; joining and splitting syllables keep every segment in order. End to end (Props/C14Scan, by induction over the whole scan of the interpreter port, any word, any number of matches, ANY environment and exception): a segmental rule `X > [features]` leaves every syllable's stress, tone and segment count as they were and creates or removes no syllable (segmental_rule_keeps_prosody), also for whole rules all of whose sub-rules are segmental, e.g. condensed rules (segmental_rule_keeps_shape); a literal replacement `a > t` keeps syllables, stress and tone (literal_rule_keeps_prosody). PARTIAL: the converse direction (prosodic rules keep the segmental tier across the whole scan), multi-element inputs and rules with several sub-rules are decided by c14-spec and the correspondence.",
+        text="Proved over the port of syll.rs, for any run length, position and syllable: a matrix naming no length/stress/tone leaves the syllable's stress, tone and segment count unchanged and reports no length change, and touches no segment outside the run; apply_syll_mods (stress/tone setting) never touches a segment; joining and splitting syllables keep every segment in order. End to end (Props/C14Scan, by induction over the whole scan of the interpreter port, any word, any number of matches, ANY environment and exception): a segmental rule `X > [features]` leaves every syllable's stress, tone and segment count as they were and creates or removes no syllable (segmental_rule_keeps_prosody), also for whole rules all of whose sub-rules are segmental, e.g. condensed rules (segmental_rule_keeps_shape); a literal replacement `a > t` keeps syllables, stress and tone (literal_rule_keeps_prosody). The converse, end to end (Props/C14Supra, the same scan induction done once generically in matrix_rule_gen): a prosodic rule `X > [±stress, ±secstress, tone:n] / any environment` whose output matrix names no node, feature or length returns a word whose every syllable holds exactly the segments it held, in order (prosodic_rule_keeps_segments; whole and condensed rules: prosodic_rule_keeps_tier; the single edit: applySegMods_prosodicOnly, which also shows the new stress/tone are exactly apply_syll_mods's). PARTIAL: multi-element inputs, syllable (`%`) outputs and boundary rules are decided by c14-spec and the correspondence.",
         note='Trusted: Lean kernel, standard axioms (+ bv_decide certificates where the bit layer is used); the hand port of subrule.rs/rule.rs/syll.rs (Model/Interp), tied to the code on every run by the interp-ops correspondence (identical outcome class and word on ~27k generated cases quick / 400k thorough, release profile); generators and labels of the search.',
         technique='Lean 4 component theorems + whole-scan induction on the port + correspondence + tier-preservation search',
         design="§4 C14"),
